@@ -416,6 +416,18 @@ func (conn *Conn) internalConnect(ctx context.Context) error {
 	// Only reset per-connection state once we know there is no live
 	// connection using it.
 	conn.initialise()
+	// The registration lines are the first thing in the new connection's
+	// output queue, put there before anybody else can reach it. Queueing
+	// them later, once the connection is up, could block on a queue that
+	// other goroutines have filled meanwhile - with conn.mu held, which the
+	// teardown of a connection that fails at once needs before it drains
+	// the queue. In here they can neither block nor, should the link drop
+	// straight away, end up on the next connection.
+	out := make(chan string, cap(conn.out))
+	for _, l := range conn.registration() {
+		out <- cutNewLines(l)
+	}
+	conn.out = out
 
 	if !hasPort(conn.cfg.Server) {
 		// JoinHostPort adds brackets around IPv6 literals itself.
@@ -453,18 +465,10 @@ func (conn *Conn) internalConnect(ctx context.Context) error {
 		conn.sock = s
 	}
 
-	conn.postConnect(ctx, true)
+	// Connected before the goroutines start: the registration lines are
+	// already queued, so the server's welcome may be handled at any moment.
 	conn.setConnected(true)
-
-	// Register with the server while conn.mu is still held. If the link
-	// drops at once, the teardown (and a reconnect from a DISCONNECTED
-	// handler or a goroutine polling Connected()) cannot start before these
-	// few lines are queued, so they can never end up on the next connection.
-	line := &Line{Cmd: REGISTER, Time: time.Now()}
-	func() {
-		defer conn.cfg.Recover(conn, line)
-		conn.h_REGISTER(line)
-	}()
+	conn.postConnect(ctx, true)
 	return nil
 }
 
